@@ -55,8 +55,8 @@ def rule_b1(ctx, scope: Set[str]) -> None:
                     )
 
 
-def rule_b2(ctx, pl: Pipeline) -> None:
-    ctx.rule("C06-B2", "ids used as list positions are positional indices of the same list; id->index maps enumerate the list they index", 6)
+def rule_b2(ctx, pl: Pipeline, rule_id: str = "C06-B2") -> None:
+    ctx.rule(rule_id, "ids used as list positions are positional indices of the same list; id->index maps enumerate the list they index", 6)
     prog = ctx.prog
     spl = prog.func(SPLITTER)
     pre = prog.func(PREPROCESS)
@@ -92,9 +92,9 @@ def rule_b2(ctx, pl: Pipeline) -> None:
     id_guards = scfg.guards(scfg.node_of(idstore))
     unconditional = not id_guards
     ok = positional and bool(resets) and not later_filters and unconditional
-    ctx.instance("C06-B2", "data_splitter: id := positional index after reset_index, no later row-count change", spl.loc(idstore), ok=ok)
+    ctx.instance(rule_id, "data_splitter: id := positional index after reset_index, no later row-count change", spl.loc(idstore), ok=ok)
     if not ok:
-        ctx.finding("C06-B2", "RSMIProcessing.data_splitter:positional-id", spl.loc(idstore), "the id column is not (always) the positional index of the final frame (positional=%s, reset_index before=%s, later filters=%d, assigned unconditionally=%s): ids supplied with the data would be used as list positions" % (positional, bool(resets), len(later_filters), unconditional))
+        ctx.finding(rule_id, "RSMIProcessing.data_splitter:positional-id", spl.loc(idstore), "the id column is not (always) the positional index of the final frame (positional=%s, reset_index before=%s, later filters=%d, assigned unconditionally=%s): ids supplied with the data would be used as list positions" % (positional, bool(resets), len(later_filters), unconditional))
     # the splitter is told data_name=None on the pipeline path
     ctor = None
     for c in calls(pre):
@@ -104,16 +104,16 @@ def rule_b2(ctx, pl: Pipeline) -> None:
     ctx.require(ctor is not None, "preprocess no longer builds RSMIProcessing")
     dn = next((k.value for k in ctor.keywords if k.arg == "data_name"), None)
     okn = isinstance(dn, ast.Constant) and dn.value is None
-    ctx.instance("C06-B2", "preprocess passes data_name=None (ids are plain positions)", pre.loc(ctor), ok=okn)
+    ctx.instance(rule_id, "preprocess passes data_name=None (ids are plain positions)", pre.loc(ctor), ok=okn)
     if not okn:
-        ctx.finding("C06-B2", "preprocess.preprocess:data_name", pre.loc(ctor), "ids are prefixed with a data name and lose their position")
+        ctx.finding(rule_id, "preprocess.preprocess:data_name", pre.loc(ctor), "ids are prefixed with a data name and lose their position")
     # (b) frame -> list without reordering
     rets = [n for n in own_nodes(pre.node) if isinstance(n, ast.Return)]
     okr = len(rets) == 1 and isinstance(rets[0].value, ast.Call) and unparse(rets[0].value.func).endswith(".to_dict") and "records" in unparse(rets[0].value)
     frame_ops = [c for c in calls(pre) if isinstance(c.func, ast.Attribute) and c.func.attr in ("sort_values", "sample", "sort_index", "iloc")]
-    ctx.instance("C06-B2", "preprocess returns frame.to_dict('records') without reordering", pre.loc(rets[0]) if rets else pre.loc(), ok=okr and not frame_ops)
+    ctx.instance(rule_id, "preprocess returns frame.to_dict('records') without reordering", pre.loc(rets[0]) if rets else pre.loc(), ok=okr and not frame_ops)
     if not (okr and not frame_ops):
-        ctx.finding("C06-B2", "preprocess.preprocess:frame-to-rows", pre.loc(), "the frame is not converted to the row list in frame order")
+        ctx.finding(rule_id, "preprocess.preprocess:frame-to-rows", pre.loc(), "the frame is not converted to the row list in frame order")
     # (c) agreement on the id column and use as list position
     id_vals = {
         "Balancer.__id_col": ctx.balancer.get("__id_col"),
@@ -123,9 +123,9 @@ def rule_b2(ctx, pl: Pipeline) -> None:
         "preprocess index_col": pl.stages[0].params.get("index_col", frozenset()),
     }
     oka = len({frozenset(v) for v in id_vals.values()}) == 1
-    ctx.instance("C06-B2", "all stages agree on the id column: %s" % {k: sorted(map(repr, v)) for k, v in id_vals.items()}, "synrbl/balancing.py", ok=oka)
+    ctx.instance(rule_id, "all stages agree on the id column: %s" % {k: sorted(map(repr, v)) for k, v in id_vals.items()}, "synrbl/balancing.py", ok=oka)
     if not oka:
-        ctx.finding("C06-B2", "Balancer.__init__:id-column-agreement", "synrbl/balancing.py:1", "stages are constructed with different id columns: %s" % {k: sorted(map(repr, v)) for k, v in id_vals.items()})
+        ctx.finding(rule_id, "Balancer.__init__:id-column-agreement", "synrbl/balancing.py:1", "stages are constructed with different id columns: %s" % {k: sorted(map(repr, v)) for k, v in id_vals.items()})
     # use sites: X[int(r[id])] and X[map[...]]
     n_pos = n_map = 0
     for st in pl.stages:
@@ -150,9 +150,9 @@ def rule_b2(ctx, pl: Pipeline) -> None:
                     kk = texts(ctx.ev.eval(src.args[0].slice, s.env))
                     n_pos += 1
                     ok = kk == {pl.id_col.text} and isinstance(cont, ast.Name) and cont.id in (f.params[1:2] if f.cls else f.params[:1])
-                    ctx.instance("C06-B2", "%s: %s[int(row[%s])] indexes the stage's own row list" % (f.name, unparse(cont), sorted(map(str, kk))), s.where(), ok=ok)
+                    ctx.instance(rule_id, "%s: %s[int(row[%s])] indexes the stage's own row list" % (f.name, unparse(cont), sorted(map(str, kk))), s.where(), ok=ok)
                     if not ok:
-                        ctx.finding("C06-B2", "%s:id-as-position" % f.qualname.split("synrbl.", 1)[-1], s.where(), "a row id is used as a position in %s, which is not the list the ids were assigned on" % unparse(cont))
+                        ctx.finding(rule_id, "%s:id-as-position" % f.qualname.split("synrbl.", 1)[-1], s.where(), "a row id is used as a position in %s, which is not the list the ids were assigned on" % unparse(cont))
                 elif isinstance(src, ast.Subscript) and isinstance(src.value, ast.Name):
                     mname = src.value.id
                     built_on = _map_built_on(f, mname)
@@ -160,12 +160,12 @@ def rule_b2(ctx, pl: Pipeline) -> None:
                         continue
                     n_map += 1
                     ok = isinstance(cont, ast.Name) and built_on == cont.id
-                    ctx.instance("C06-B2", "%s: id->index map %s built by enumerating %s, applied to %s" % (f.name, mname, built_on, unparse(cont)), s.where(), ok=ok)
+                    ctx.instance(rule_id, "%s: id->index map %s built by enumerating %s, applied to %s" % (f.name, mname, built_on, unparse(cont)), s.where(), ok=ok)
                     if not ok:
-                        ctx.finding("C06-B2", "%s:id-map-list-mismatch" % f.qualname.split("synrbl.", 1)[-1], s.where(), "the id->index map %s was built on %s but indexes %s" % (mname, built_on, unparse(cont)))
+                        ctx.finding(rule_id, "%s:id-map-list-mismatch" % f.qualname.split("synrbl.", 1)[-1], s.where(), "the id->index map %s was built on %s but indexes %s" % (mname, built_on, unparse(cont)))
     if not (n_pos >= 1 and n_map >= 2):
         # a write-back that goes neither through the positional id nor through an id->index map
-        ctx.finding("C06-B2", "pipeline:write-back-shape", "synrbl/balancing.py:1", "row write-backs changed shape (by positional id: %d, through id->index maps: %d; 2 and 2 on the reference tree): some stage attaches results to rows by list position" % (n_pos, n_map))
+        ctx.finding(rule_id, "pipeline:write-back-shape", "synrbl/balancing.py:1", "row write-backs changed shape (by positional id: %d, through id->index maps: %d; 2 and 2 on the reference tree): some stage attaches results to rows by list position" % (n_pos, n_map))
 
 
 def _map_built_on(f: Func, mname: str) -> Optional[str]:
@@ -340,6 +340,19 @@ def rule_b4(ctx, scope: Set[str]) -> None:
         ctx.instance("C06-B4", q.split("synrbl.", 1)[-1], f.loc(), ok=not bad, nontrivial=bool(bad) or bool(globals_declared) or f.is_classmethod)
         for n, why in bad:
             ctx.finding("C06-B4", "%s:shared-state:%s" % (q.split("synrbl.", 1)[-1], why.split()[-1]), f.loc(n), "%s on the pipeline path: results of one reaction can depend on reactions processed before it" % why)
+    # class-level *empty* mutable containers are shared state waiting to be filled
+    classes = {prog.functions[q].cls.qualname: prog.functions[q].cls for q in scope if q in prog.functions and prog.functions[q].cls is not None}
+    for cq, cls in sorted(classes.items()):
+        for attr, val in cls.class_attrs.items():
+            empty = (isinstance(val, (ast.Dict, ast.List, ast.Set)) and not (getattr(val, "keys", None) or getattr(val, "elts", None))) or (isinstance(val, ast.Call) and unparse(val.func) in ("dict", "list", "set", "defaultdict", "collections.defaultdict", "OrderedDict"))
+            if not empty:
+                continue
+            # registry idiom: only written by a `register` classmethod that is called at import time
+            writers = [m.name for m in cls.methods.values() if any(isinstance(n, ast.Attribute) and n.attr == attr for n in own_nodes(m.node))]
+            registry = "register" in writers and "build" in writers and set(writers) <= {"register", "build"}
+            ctx.instance("C06-B4", "class-level container %s.%s (registry idiom: %s)" % (cls.name, attr, registry), cls.module.relpath, ok=registry)
+            if not registry:
+                ctx.finding("C06-B4", "%s.%s:class-level-container" % (cq.split("synrbl.", 1)[-1], attr), "%s:%d" % (cls.module.relpath, val.lineno), "%s.%s is an empty mutable container at class level: every instance (every batch, every Validator pass) shares and fills the same object, so results depend on what was processed before" % (cls.name, attr))
     # class-level registries are written at import time only (register() called at module level)
     for m in prog.modules.values():
         if not m.name.startswith("synrbl."):
